@@ -275,7 +275,7 @@ impl Prop for C09 {
     const PART: &'static str = "metric";
     const RULE: &'static str = "lattice: all ordered triples over a per-kind lattice of special states (seam, +-pi+-ulp, multiples of pi/2, non-canonical angles up to 1e300, antipodal / near-identical quaternions, dot products at 0 and at the 0.9995 switch, +-0, 1e-300, 1e150), enumerated exhaustively; random: proptest choice sequences -> (space of a random kind/layout/weights, three states, 50% with b near a, 50% with an equivalent representation of a). Non-trivial = three pairwise non-bit-identical states with at least one pair in a hard class (across the seam, antipodal, non-canonical angle, negative / near-0 / near-switch quaternion dot, |x|>1e6).";
     fn random_cases(tier: Tier) -> usize {
-        tier.pick(1_000_000, 5_000_000)
+        tier.pick(3_000_000, 12_000_000)
     }
     fn gen(ch: &mut Ch, _tier: Tier) -> MetricCase {
         let kind = ch.pick(&ALL_KINDS);
